@@ -34,12 +34,15 @@ impl<'de, const LENGTH: usize> Deserialize<'de> for StackByteArray<LENGTH> {
                 let mut idx: usize = 0;
 
                 while let Some(elem) = seq.next_element()? {
-                    if idx < LENGTH {
-                        arr[idx] = elem;
-                        idx += 1;
-                    } else {
-                        break;
+                    if idx >= LENGTH {
+                        return Err(Error::invalid_length(idx + 1, &self));
                     }
+                    arr[idx] = elem;
+                    idx += 1;
+                }
+
+                if idx != LENGTH {
+                    return Err(Error::invalid_length(idx, &self));
                 }
 
                 Ok(arr)
@@ -131,16 +134,11 @@ mod protected {
                     A: SeqAccess<'de>,
                 {
                     let mut arr = HeapBytes::default();
-                    let mut idx: usize = 0;
-                    let size_hint = seq.size_hint().unwrap_or(1);
-                    arr.resize(size_hint, 0);
 
                     while let Some(elem) = seq.next_element()? {
-                        if idx > arr.len() {
-                            arr.resize(idx, 0);
-                        }
+                        let idx = arr.len();
+                        arr.resize(idx + 1, 0);
                         arr[idx] = elem;
-                        idx += 1;
                     }
 
                     Ok(arr)
@@ -176,28 +174,22 @@ mod protected {
                 where
                     A: SeqAccess<'de>,
                 {
-                    let mut arr = HeapBytes::gen_locked().expect("couldn't create locked bytes");
-                    let mut idx: usize = 0;
-                    let size_hint = seq.size_hint().unwrap_or(1);
-                    arr.resize(size_hint, 0);
+                    let mut arr = HeapBytes::default();
 
                     while let Some(elem) = seq.next_element()? {
-                        if idx > arr.len() {
-                            arr.resize(idx, 0);
-                        }
+                        let idx = arr.len();
+                        arr.resize(idx + 1, 0);
                         arr[idx] = elem;
-                        idx += 1;
                     }
 
-                    Ok(arr)
+                    arr.mlock().map_err(Error::custom)
                 }
 
                 fn visit_bytes<E>(self, v: &[u8]) -> Result<Self::Value, E>
                 where
                     E: Error,
                 {
-                    Ok(HeapBytes::from_slice_into_locked(v)
-                        .expect("couldn't copy slice into locked bytes"))
+                    HeapBytes::from_slice_into_locked(v).map_err(Error::custom)
                 }
             }
 
@@ -223,20 +215,23 @@ mod protected {
                 where
                     A: SeqAccess<'de>,
                 {
-                    let mut arr = HeapByteArray::<LENGTH>::gen_locked()
-                        .expect("couldn't create locked bytes");
+                    let mut arr =
+                        HeapByteArray::<LENGTH>::new_locked().map_err(Error::custom)?;
                     let mut idx: usize = 0;
-                    let size_hint = seq.size_hint().unwrap_or(0);
-                    if size_hint != LENGTH {
-                        Err(Error::invalid_length(size_hint, &stringify!(LENGTH)))
-                    } else {
-                        while let Some(elem) = seq.next_element()? {
-                            arr[idx] = elem;
-                            idx += 1;
-                        }
 
-                        Ok(arr)
+                    while let Some(elem) = seq.next_element()? {
+                        if idx >= LENGTH {
+                            return Err(Error::invalid_length(idx + 1, &self));
+                        }
+                        arr[idx] = elem;
+                        idx += 1;
                     }
+
+                    if idx != LENGTH {
+                        return Err(Error::invalid_length(idx, &self));
+                    }
+
+                    Ok(arr)
                 }
 
                 fn visit_bytes<E>(self, v: &[u8]) -> Result<Self::Value, E>
@@ -246,8 +241,7 @@ mod protected {
                     if v.len() != LENGTH {
                         Err(Error::invalid_length(v.len(), &stringify!(LENGTH)))
                     } else {
-                        Ok(HeapByteArray::<LENGTH>::from_slice_into_locked(v)
-                            .expect("couldn't copy slice into locked bytes"))
+                        HeapByteArray::<LENGTH>::from_slice_into_locked(v).map_err(Error::custom)
                     }
                 }
             }
